@@ -31,11 +31,11 @@ PROPS = {
                 negatives=[("IkSpan", "exec", "PalIk", 0), ("MetaLogsCarryIk", False, "PalIk", 0), ("ReplayFromRequest", True, "PalIk", 0),
                            ("LookupErrorIgnored", True, "PalIkRead", 0)],
                 invs=["C07_IkOnce", "C06_AckPersisted"]),
-    "C10": dict(palettes=[("PalRevert", 0)],
+    "C10": dict(palettes=[("PalRevert", 0), ("PalRefRead", 0)],
                 negatives=[("RevertGuard", False, "PalRevert", 0)],
                 invs=["C10_RevertOnce", "C02_SerialFunds"]),
-    "C11": dict(palettes=[("PalRef", 0)],
-                negatives=[("RefRelease", "execReturn", "PalRef", 0)],
+    "C11": dict(palettes=[("PalRef", 0), ("PalRefRead", 0)],
+                negatives=[("RefRelease", "execReturn", "PalRef", 0), ("LookupErrorIgnored", True, "PalRefRead", 0)],
                 invs=["C11_RefOnce"]),
     # C12, engine side: whatever a script does (failing balance lookups, overdrafts, refused programs), the request
     # ends and leaves no lock, reservation or unanswered request behind (NothingLeftBehind is judged for every property)
@@ -66,7 +66,7 @@ def cfg(spec, palette, nprocs, design, invs, maxcrash, extra=""):
         design = dict(design, SeedTx=False)   # this palette is about a ledger that holds no transaction yet
     return "SPECIFICATION %s\nCONSTANTS\n  Procs = {%s}\n  Palette <- %s\n%s  MaxCrash = %d\n%s%s\nCHECK_DEADLOCK FALSE\n" % (
         spec, ", ".join('"p%d"' % i for i in range(1, nprocs + 1)), palette,
-        "".join("  %s = %s\n" % (k, tla(v)) for k, v in design.items()) + "  MaxCancel = 1\n  MaxReadFail = %d\n" % (1 if palette.startswith("PalIkRead") else 0), maxcrash, extra,
+        "".join("  %s = %s\n" % (k, tla(v)) for k, v in design.items()) + "  MaxCancel = 1\n  MaxReadFail = %d\n" % (1 if palette.startswith(("PalIkRead", "PalRefRead")) else 0), maxcrash, extra,
         ("INVARIANTS " + " ".join(invs)) if invs else "")
 
 
